@@ -32,13 +32,48 @@ def _load(name, real, patches):
     return mod
 
 
+_NATIVE_DEPTH = []
+
+
+def native_depth_limit():
+    """deepest nesting the native json.loads of this interpreter accepts (binary search, once per process)"""
+    if not _NATIVE_DEPTH:
+        def okk(k):
+            try:
+                _json.loads('[' * k + ']' * k)
+                return True
+            except RecursionError:
+                return False
+        lo, hi = 1, 1 << 20
+        while lo < hi:
+            mid = (lo + hi + 1) // 2
+            if okk(mid):
+                lo = mid
+            else:
+                hi = mid - 1
+        _NATIVE_DEPTH.append(lo)
+    return _NATIVE_DEPTH[0]
+
+
 def mods():
     if not _MODS:
         # two known places where the pure-Python decoder is laxer than the C one that json.loads really uses:
         # \\d also matches non-ASCII digits, and \\uXXXX goes through int(x, 16) (accepts '12_4', ' 123', '+123')
         sc = _load('_sx_json_scanner', json.scanner, [
             ('    from _json import make_scanner as c_make_scanner\n', '    c_make_scanner = None\n'),
-            (r"r'(-?(?:0|[1-9]\d*))(\.\d+)?([eE][-+]?\d+)?'", r"r'(-?(?:0|[1-9][0-9]*))(\.[0-9]+)?([eE][-+]?[0-9]+)?'")])
+            (r"r'(-?(?:0|[1-9]\d*))(\.\d+)?([eE][-+]?\d+)?'", r"r'(-?(?:0|[1-9][0-9]*))(\.[0-9]+)?([eE][-+]?[0-9]+)?'"),
+            # the C decoder gives up with RecursionError at a fixed nesting depth (its own C recursion limit,
+            # independent of sys.getrecursionlimit()); the copy counts nesting and does the same at the depth
+            # measured on the running interpreter (native_depth_limit)
+            ("            return parse_object((string, idx + 1), strict,\n                _scan_once, object_hook, object_pairs_hook, memo)\n",
+             "            return _nested(parse_object, (string, idx + 1), strict,\n                _scan_once, object_hook, object_pairs_hook, memo)\n"),
+            ("            return parse_array((string, idx + 1), _scan_once)\n",
+             "            return _nested(parse_array, (string, idx + 1), _scan_once)\n"),
+            ("    def _scan_once(string, idx):\n",
+             "    depth = [0]\n\n    def _nested(f, *a):\n        depth[0] += 1\n        try:\n            if depth[0] > DEPTH_LIMIT[0]:\n"
+             "                raise RecursionError('maximum recursion depth exceeded while decoding a JSON value')\n"
+             "            return f(*a)\n        finally:\n            depth[0] -= 1\n\n    def _scan_once(string, idx):\n")])
+        sc.DEPTH_LIMIT = [native_depth_limit()]
         dec = _load('_sx_json_decoder', json.decoder, [
             ('from json import scanner\n', 'import _sx_json_scanner as scanner\n'),
             ('    from _json import scanstring as c_scanstring\n', '    c_scanstring = None\n'),
